@@ -15,7 +15,8 @@
    FRAGMENT covered (`ffrag`, defined in Rc/For_proofs.v over `sfrag` of Rc/Cow_proofs.v; notes/C01.md spells it
    out): arbitrary nesting, arbitrary index paths, all payload kinds (list, dict with/without default, string,
    vector, bytes, struct instance); statements  x[p] = e,  every x[p] = e (p with slices),  x[p] f= e  (append ++ +
-   |. -.),  [y[q] =] pop|remove|consume x[p]  (remove also by slice),  swap x[p], y[q],
+   |. -.),  x[p] f= [pop|remove|consume y[q]]  (a right-hand side that mutates, also the target itself: the old value
+   is read first),  [y[q] =] pop|remove|consume x[p]  (remove also by slice),  swap x[p], y[q],
    for (it <- x[p]) (simple statements)  with the cloning/draining iterator;  expressions  literal, x[p] (also
    slices), getter closure, [e..], e{k = e'}, call of a function that mutates its parameter (incl. `every`).
    Write paths of the non-`every` forms contain no slice (that is todo!() in set_index, finding F11).
@@ -103,10 +104,11 @@ Example C01_nonvacuous :
               Simple (SAssign 4 [] (EUpd (ERead 1 []) (PI 0) (ELit (VInt 7))));
               Simple (SAssign 4 [PI 1] (ECall (LSet [PI 0] (VInt 9)) (ERead 1 [PI 3])));
               SFor 2 [] [SOp 2 [] BAppend (ERead 0 []); SAssign 3 [PI 0] (ERead 0 [PI 2])];
-              Simple (SEvery 2 [PSl (Some 1%Z) None; PI 0] (ELit (VInt 8)))] in
+              Simple (SEvery 2 [PSl (Some 1%Z) None; PI 0] (ELit (VInt 8)));
+              Simple (SOpMod 3 [] BConcat true 3 (LPop []))] in
   forallb ffrag ops = true /\
   final_value (repeat VNull 5) ops =
-    [VNull; VList [VInt 0; VInt 0; VInt 0; row]; VList [row; VList [VInt 8; VInt 0; VInt 0]]; VList [VInt 0; VInt 0; VInt 3];
+    [VNull; VList [VInt 0; VInt 0; VInt 0; row]; VList [row; VList [VInt 8; VInt 0; VInt 0]]; VList [VInt 0; VInt 0; VInt 3; VInt 3];
      VList [VInt 7; VList [VInt 9; VInt 0; VInt 0]; VInt 0; row]] /\
   map (abs_val 6 (mheap (final_cow (init_state 5) ops))) (roots (final_cow (init_state 5) ops))
     = map Some (final_value (repeat VNull 5) ops).
